@@ -38,6 +38,14 @@ type Plan struct {
 	// which happens at execute time (concurrently across fields) the
 	// first time each concrete type is encountered for an abstract field.
 	abstractMu sync.Mutex
+
+	// expanding holds the field ASTs whose sub-selections are being
+	// planned right now. Meeting one of them again means the document's
+	// fragments spread each other through a field (only possible in an
+	// unvalidated document): that field is then planned on demand at
+	// execute time, level by level as the data is walked, instead of
+	// unrolling the cycle forever. Guarded like abstractAlternatives.
+	expanding map[*ast.Field]bool
 }
 
 // selectionPlan is a pre-collected, source-ordered list of fields to
@@ -137,6 +145,11 @@ type fieldPlan struct {
 	// back to runtime collectFields).
 	sub                  *selectionPlan
 	abstractAlternatives map[*Object]*selectionPlan
+
+	// plannedOnDemand marks an object-typed field inside a fragment
+	// cycle: its sub-selection is planned (and cached in
+	// abstractAlternatives) the first time a value reaches it.
+	plannedOnDemand bool
 }
 
 // argPlan separates static arg values (resolvable once, at plan
@@ -268,7 +281,22 @@ func (p *Plan) planMergedFieldChildren(fp *fieldPlan) {
 	// Object returns resolve to a single concrete type, so plan their
 	// sub-selection eagerly.
 	if obj, ok := unwrapNamedType(fp.returnType).(*Object); ok {
+		for _, f := range fp.fieldASTs {
+			if p.expanding[f] {
+				fp.plannedOnDemand = true
+				return
+			}
+		}
+		if p.expanding == nil {
+			p.expanding = map[*ast.Field]bool{}
+		}
+		for _, f := range fp.fieldASTs {
+			p.expanding[f] = true
+		}
 		fp.sub = p.planMergedSelectionsForType(obj, fp.fieldASTs, fp.astPredicates)
+		for _, f := range fp.fieldASTs {
+			delete(p.expanding, f)
+		}
 		return
 	}
 	// Abstract returns (Interface / Union) are planned lazily, per
@@ -1013,6 +1041,11 @@ func completePlannedObjectValue(eCtx *executionContext, returnType *Object, fp *
 	}
 	if fp.sub != nil {
 		return executePlannedSelection(eCtx, fp.sub, result, returnType, path)
+	}
+	if fp.plannedOnDemand && eCtx.plan != nil {
+		if sub := eCtx.plan.abstractAlternative(fp, returnType); sub != nil {
+			return executePlannedSelection(eCtx, sub, result, returnType, path)
+		}
 	}
 	// Fallback: planner didn't precompute (e.g. selection set was
 	// empty per validation, which shouldn't reach here for object
